@@ -191,7 +191,7 @@ func TestC07(t *testing.T) {
 			if !opSupports("cmp", op, d) {
 				continue
 			}
-			for _, mode := range []string{"safe", "safe-same", "unsafe", "reuse", "reuse-same", "reuseA", "reuseB"} {
+			for _, mode := range []string{"safe", "safe-same", "unsafe", "reuse", "reuse-same", "reuseA", "reuseB", "reuseAv", "reuseBv"} {
 				op, d, mode := op, d, mode
 				cell(t, "C07", "EW", "cmp/"+op+"/"+d.Name+"/"+mode, nCases(20, 300), func(rt *rapid.T) Case {
 					form := rapid.SampledFrom([]string{"TT", "TS", "ST"}).Draw(rt, "form")
@@ -218,18 +218,32 @@ func TestC07(t *testing.T) {
 
 func genCmpMode(rt *rapid.T, prop, op string, d DT, form, via, mode string) *EWCase {
 	same := false
+	if mode == "reuse-alias" {
+		// the reuse tensor is an operand, or another tensor over an operand's memory
+		mode = rapid.SampledFrom([]string{"reuseA", "reuseB", "reuseAv", "reuseBv"}).Draw(rt, "alias")
+	}
 	m := mode
 	switch mode {
 	case "safe-same":
 		m, same = "safe", true
 	case "reuse-same":
 		m, same = "reuse", true
-	case "unsafe", "reuseA", "reuseB":
+	case "unsafe", "reuseA", "reuseB", "reuseAv", "reuseBv":
 		same = true
 	}
 	c := genCmpCase(rt, prop, op, d, form, via, m, same, c06LayoutKinds)
 	if m == "reuseB" && c.B == nil {
 		c.Mode = "reuseA"
+	}
+	if m == "reuseBv" && c.B == nil {
+		c.Mode = "reuseAv"
+	}
+	// a whole-tensor view of an operand with gaps in its storage cannot be a reuse tensor: use compact operands
+	if c.Mode == "reuseAv" && !c.A.L.IsContig() {
+		c.A.L = Layout{Root: "rm"}
+	}
+	if c.Mode == "reuseBv" && !c.B.L.IsContig() {
+		c.B.L = Layout{Root: "rm"}
 	}
 	if inF26(c) {
 		rec.Class("excluded:F26")
@@ -252,7 +266,7 @@ func TestC11(t *testing.T) {
 				continue
 			}
 			for _, form := range []string{"TT", "TS", "ST"} {
-				for _, mode := range []string{"safe", "safe-same", "unsafe", "reuse", "reuse-same"} {
+				for _, mode := range []string{"safe", "safe-same", "unsafe", "reuse", "reuse-same", "reuse-alias"} {
 					if !d.IsNum() && mode != "safe" && mode != "reuse" {
 						continue // 1/0 of the operand type only exists for numeric types
 					}
